@@ -42,6 +42,8 @@ fn main() {
         "wire-encode" => streams::wire::run_encode(&mut r, n, extra, &mut out),
         "zone-resolve" => streams::zone::run_resolve(&mut r, n, &mut out),
         "zones-merge" => streams::zone::run_merge(&mut r, n, &mut out),
+        "cache" => streams::cache::run(&mut r, n, &mut out),
+        "cache-threads" => streams::cache::run_threads(&mut r, n, &mut out),
         other => {
             eprintln!("unknown stream {other}");
             std::process::exit(2);
